@@ -786,7 +786,18 @@ def rewrite(toks, pat_text, repl_text, count, unit_line, log, what, nth=None):
     return out
 
 
-def slice_item(toks, pat_text, repl_text, unit_line, log, what):
+def capture_only(toks, pat_text, unit_line, log, what):
+    """R15 helper: the pattern must match exactly once anywhere inside the item; returns its captures (used by a later slice)."""
+    pat = Pat(pat_text)
+    ms = find_matches(pat, toks)
+    if len(ms) != 1:
+        raise Maintenance('%s: capture pattern `%s` matched %d time(s), expected 1 (unit line %d)' % (
+            what, ' '.join(pat_text.split())[:400], len(ms), unit_line))
+    log.append((what, toks[ms[0][0]].file, toks[ms[0][0]].line, 'captured `%s`' % ' '.join(render(toks[ms[0][0]:ms[0][1]]).split())[:160]))
+    return ms[0][2]
+
+
+def slice_item(toks, pat_text, repl_text, unit_line, log, what, extra_caps=None):
     """R15 (deep form): the pattern must match exactly once anywhere inside the item (at any nesting depth); the WHOLE item is
     replaced by the instantiated replacement (a function made of the captured statements)."""
     pat = Pat(pat_text)
@@ -795,6 +806,8 @@ def slice_item(toks, pat_text, repl_text, unit_line, log, what):
         raise Maintenance('%s: slice pattern `%s` matched %d time(s), expected 1 (unit line %d)' % (
             what, ' '.join(pat_text.split())[:400], len(ms), unit_line))
     (s, e, caps) = ms[0]
+    if extra_caps:
+        caps = dict(extra_caps, **caps)
     rep = instantiate(repl_text, caps, unit_line)
     if rep:
         rep[0].ws = toks[0].ws
